@@ -870,9 +870,23 @@ def main(argv):
                                 "parsing %s as %s under ASan+UBSan (NDEBUG): %s"
                                 % (c["hex"][:80], name, l[:400]), rep)
                 else:
-                    chk.violate("trivial-size-smart-pointer-in-container" if trivial_ptr_container(ty) else "hostile-input-kills-process",
-                                "parsing %d bytes as %s (%s build) does not return: %s"
-                                % (len(c["hex"]) // 2, name, "NDEBUG" if nd == "1" else "debug", l[:300]), rep)
+                    sig = "trivial-size-smart-pointer-in-container" if trivial_ptr_container(ty) else "hostile-input-kills-process"
+                    what = "parsing %d bytes as %s (%s build) does not return: %s" % (
+                        len(c["hex"]) // 2, name, "NDEBUG" if nd == "1" else "debug", l[:300])
+                    if nd == "0" and packed_scalar_ptr(ty):
+                        # localise the presentation: when every presentation with a limit returns and only the
+                        # stream-backed ones without limit do not, this is the element loop of a container of smart
+                        # pointers to scalars making no progress at the end of an unlimited stream (the recorded
+                        # finding), reached through an input shape the model's non-termination prediction misses
+                        rc2, out2, err2 = sh([impl], input="%s D %s 19 %s\n" % (c["id"], name, c["hex"]), timeout=60,
+                                             env=dict(os.environ, C11_ALARM="4"))
+                        if rc2 == 0 and " res=" in out2:
+                            sig = "unlimited-stream-scalar-ptr-vector-never-terminates"
+                            what = ("parsing %s as %s from a stream-backed coded stream without limit never returns "
+                                    "(vector of smart pointers to scalars: the element loop makes no progress at end of "
+                                    "input; every presentation with a limit returns)" % (c["hex"][:80], name))
+                            rep = dict(rep, presentation="stream without limit")
+                    chk.violate(sig, what, rep)
                 continue
             d, mon = kv(l)
             res = canon_res(ty, d.get("res"))
